@@ -10,3 +10,4 @@ lemma = REG.lemma
 exception = REG.exception
 builder = REG.builder
 generator = REG.generator
+finding_class = REG.finding_class
